@@ -89,6 +89,7 @@ structure Dump where
   failed : List String := []                -- oids whose load failed
   lines : List String := []                 -- nm/tbl/obj lines in order
   bad : List String := []
+  binloads : Option Nat := none             -- the observed `binloads` line of this epoch's dump
 
 def parseDump (lines : List String) : Dump :=
   let d := lines.foldl (fun (d : Dump) line =>
@@ -104,6 +105,7 @@ def parseDump (lines : List String) : Dump :=
     | "cmp" :: _ => { d with lines := line :: d.lines }
     | ["obj", oid, p] => { d with objs := (oid, p) :: d.objs, lines := line :: d.lines }
     | ["ld", oid, "!fail"] => { d with failed := oid :: d.failed }
+    | ["binloads", n] => { d with binloads := n.toNat? }
     | _ => d) {}
   { d with names := d.names.reverse, raws := d.raws.reverse, objs := d.objs.reverse, lines := d.lines.reverse }
 
@@ -313,9 +315,18 @@ def runModel (body : List String) : List String :=
               renderCmp (name ++ wf ++ (if rtOk then "" else "!roundtrip")) c
             | none => s!"cmp {name} not-in-case"
           | _ => l
-        -- programs that came from saved binaries since the start of the case / the last reload: before a reload nothing
-        -- is saved yet; after it every program file loaded so far (one object per file) comes from its binary
-        let nbin := if p.savebin && env.epoch > 0 then s.objs.length else 0
+        -- programs that came from saved binaries since the start of the case / the last reload.  Before a reload nothing
+        -- can have been loaded from a binary (exact: 0).  After it the line has to show that binaries WERE used when the
+        -- dispatch comparison is made: at least one and at most one per program file loaded so far.  Which programs the
+        -- driver agrees to save / accepts as up to date is decided by save_binary / load_binary's staleness and size rules
+        -- (the subject of C17 / C18), so the count inside these bounds is observed, not predicted; outside them the model
+        -- prints its own expectation (every file loaded so far) and the traces differ.
+        let full := s.objs.length
+        let nbin :=
+          if !(p.savebin && env.epoch > 0) || full == 0 then 0
+          else match d.binloads with
+            | some k => if 1 ≤ k && k ≤ full then k else full
+            | none => full
         (env, { s with out := Ev.line s!"binloads {nbin}" :: ((lines.map Ev.line).reverse ++ s.out) })
       | .call o oid fn args =>
         (env,
